@@ -21,8 +21,10 @@ type PropCfg struct {
 	Packages []string `json:"packages"`
 	// SweepFiles: pkgpath -> file base names whose functions get the safety sweep (C18/C19)
 	SweepFiles map[string][]string `json:"sweep_files,omitempty"`
-	Note       string              `json:"note,omitempty"`
-	Undecided  []string            `json:"claimed_not_decided,omitempty"`
+	// Kinds: if set, only obligations of these kinds (prefix match, e.g. "lock") count for the property
+	Kinds     []string `json:"kinds,omitempty"`
+	Note      string   `json:"note,omitempty"`
+	Undecided []string `json:"claimed_not_decided,omitempty"`
 }
 
 type Config struct {
@@ -206,6 +208,21 @@ func cmdCheck(args []string) int {
 	var mine []*Obligation
 	for _, ob := range x.obls {
 		if len(ob.Tags) == 0 || hasTag(ob.Tags, *prop) {
+			if len(pc.Kinds) > 0 && ob.Kind != "cover" {
+				// a kind-restricted property takes only obligations explicitly tagged with it
+				keep := false
+				if !hasTag(ob.Tags, *prop) {
+					continue
+				}
+				for _, k := range pc.Kinds {
+					if strings.HasPrefix(ob.Kind, k) {
+						keep = true
+					}
+				}
+				if !keep {
+					continue
+				}
+			}
 			mine = append(mine, ob)
 		}
 	}
@@ -222,10 +239,10 @@ func cmdCheck(args []string) int {
 	}
 	// group by obligation name
 	type group struct {
-		name     string
-		obs      []*Obligation
-		bad      []*Obligation
-		qfiles   []string
+		name   string
+		obs    []*Obligation
+		bad    []*Obligation
+		qfiles []string
 	}
 	groups := map[string]*group{}
 	var gnames []string
@@ -508,6 +525,7 @@ type replayEntry struct {
 	Pkg   string `json:"pkg"`   // package directory relative to the repository
 	File  string `json:"file"`  // test file under /verif/replay
 	Run   string `json:"run"`   // test name
+	Race  bool   `json:"race"`  // run under the Go race detector; a DATA RACE report counts as reproduced
 }
 
 // tryReplay runs the hand-written replay test registered for the obligation against the real code,
@@ -551,7 +569,12 @@ func tryReplay(verif, repo, prop, name string, bad []*Obligation, sb *strings.Bu
 	ov, _ := json.Marshal(map[string]interface{}{"Replace": map[string]string{target: filepath.Join(verif, "replay", ent.File)}})
 	ovFile := filepath.Join(tmp, "ov.json")
 	os.WriteFile(ovFile, ov, 0o644)
-	cmd := exec.Command("go", "test", "-overlay", ovFile, "-vet=off", "-count=1", "-timeout", "60s", "-run", "^"+ent.Run+"$", "-v", "./"+ent.Pkg)
+	args := []string{"test", "-overlay", ovFile, "-vet=off", "-count=1", "-timeout", "120s", "-run", "^" + ent.Run + "$", "-v"}
+	if ent.Race {
+		args = append(args, "-race")
+	}
+	args = append(args, "./"+ent.Pkg)
+	cmd := exec.Command("go", args...)
 	cmd.Dir = repo
 	cmd.Env = append(os.Environ(), "GOFLAGS=-mod=mod", "GOPROXY=off", "GOSUMDB=off", "GOTOOLCHAIN=local", "VERIF_CE="+ceFile)
 	out, _ := cmd.CombinedOutput()
@@ -562,6 +585,9 @@ func tryReplay(verif, repo, prop, name string, bad []*Obligation, sb *strings.Bu
 	fmt.Fprintf(sb, "\n--- replay on the real code (%s, %s) ---\ncounterexample values: %s\n%s\n", ent.File, ent.Run, string(ce), text)
 	for _, l := range strings.Split(text, "\n") {
 		if strings.HasPrefix(strings.TrimSpace(l), "REPRODUCED:") {
+			return true
+		}
+		if ent.Race && strings.HasPrefix(strings.TrimSpace(l), "WARNING: DATA RACE") {
 			return true
 		}
 	}
